@@ -8,6 +8,21 @@ ALL = ["C%02d" % i for i in range(1, 20)]
 
 # id -> (category, technique, level text, level note, design ref)
 CHECKS = {
+ "C01": ("exploration",
+         "bounded-exhaustive enumeration (full product of hosts x schemes x ports x RP-ID shapes x configurations, every PSL rule) on the real RpIdVerifier and Client, independent PSL matcher as oracle",
+         "The (origin, RP ID) space is infinite; the check enumerates completely a finite domain built from every shortcut visible in the code (character suffixes vs. label suffixes, every rule of the shipped list incl. IDN forms, localhost shapes, IP literals, schemes, ports, both providers, web and Android) and judges every accepted pair with the implication stated in the property, using a textbook PSL matcher over the .dat file. Exhaustive over that domain, not a proof for all strings.",
+         "url/idna crates trusted for URL parsing; registrability judged on the A-label form by the harness matcher; the custom provider is the harness's own.",
+         "DESIGN.md §2 C01"),
+ "C08": ("model_checking",
+         "explicit-state BFS over the real get_assertion/make_credential with history replay, deduplicated on the counter vector",
+         "All histories of assertions (with and without extension requests) and registrations up to the depth bound from 49 start vectors covering 0, 1, 2^31-1, 2^31, 2^32-2, 2^32-1 and counter-less credentials are executed on the real authenticator; every transition is checked against the counter invariants (previous+1 = reported = stored, counter-less never rewritten, no wrap and no panic at the maximum).",
+         "Depth bound 4 (quick) / 6 (thorough); counters evolve by +1 so start values at the boundaries stand for the whole range; overflow checks on.",
+         "DESIGN.md §2 C08"),
+ "C10": ("exploration",
+         "bounded-exhaustive enumeration (every rule-derived name, all strings over a 9-symbol alphabet up to length 6/7) against an independent PSL matcher over the shipped .dat file",
+         "Every rule of the shipped list (about 9.8k) as-is, with parent/sibling and 1-3 extra labels is compared on all three lookup functions with a reference implementation of the publicsuffix.org algorithm reading the .dat file; all short strings over an alphabet that reaches plain, wildcard and exception rules, dots, upper case and non-ASCII are checked for structure and no-crash. Exhaustive over that domain.",
+         "Own punycode encoder cross-checked with idna on all IDN rules at every run (disagreement = machinery error); equality demanded for canonical lower-case ASCII names only.",
+         "DESIGN.md §2 C10"),
  "C04": ("model_checking",
          "explicit-state enumeration of the complete configuration product on the real Authenticator/Client, reference consent rule as oracle",
          "Every configuration of the finite product (operation, rk/up/uv, verification and presence capability, 7 validation outcomes, pin-auth, store kind, 4 store contents; plus the client-level userVerification dimension) is executed on the real code and compared with a 30-line reference of the consent rule, the call log order and the store snapshot. The space is finite and is enumerated completely, which is the strongest statement available for a configuration property.",
